@@ -133,7 +133,7 @@ def rand_weights(rng, n, cls):
 
 def rand_shape(rng, pdim, rational=None, maxdeg=None, maxextra=None, dim=None, kvcls=None, normalize=True,
                lohi=None, span=None, wcls=None, pcls=None, distinct_sizes=True, fine=False, clamped_only=False,
-               mindeg=1, large=False):
+               mindeg=1, large=False, square=None):
     """A JSON-able shape dict. Control points are in library order (v fastest, then u, then w).
     large: degrees and sizes beyond the usual small ones (degree up to 10, up to 40 control points per curve; surfaces whose sizes
     and degrees differ strongly), overriding maxdeg / maxextra / mindeg."""
@@ -149,9 +149,16 @@ def rand_shape(rng, pdim, rational=None, maxdeg=None, maxextra=None, dim=None, k
         maxextra = {1: 8, 2: 5, 3: 3}[pdim]
     if dim is None:
         dim = rng.choice([2, 3, 3, 3]) if pdim < 3 else 3
+    if square is None:
+        # all directions alike in degree and size but NOT in their knot vectors (what distinguishes the directions is the knot vector only)
+        square = pdim > 1 and not large and kvcls is None and rng.random() < 0.08
     for _ in range(100):
         degs = [rng.randint(mindeg, maxdeg) for _ in range(pdim)]
         sizes = [d + 1 + rng.randint(0, maxextra) for d in degs]
+        if square:
+            degs = [degs[0]] * pdim
+            sizes = [max(sizes[0], degs[0] + 3)] * pdim
+            break
         if large:
             # at least one direction is really large, the others anything
             k = rng.randrange(pdim)
@@ -168,6 +175,8 @@ def rand_shape(rng, pdim, rational=None, maxdeg=None, maxextra=None, dim=None, k
     mixed_ranges = (not normalize) and lohi is None and pdim > 1 and rng.random() < 0.4
     for p, n in zip(degs, sizes):
         c = kvcls
+        if c is None and square:
+            c = 'random'
         if c is None:
             opts = ['uniform', 'random', 'random', 'random', 'fullmult']
             if not clamped_only:
@@ -195,6 +204,8 @@ def rand_shape(rng, pdim, rational=None, maxdeg=None, maxextra=None, dim=None, k
           'ctrlpts': P, 'normalize_kv': bool(normalize), 'kvcls': classes, 'pcls': pc}
     if large:
         sd['large'] = True
+    if square and pdim > 1:
+        sd['square'] = True
     if rational:
         wc = wcls or rng.choice(['uniform', 'uniform', 'ones', 'const', 'twolevel', 'arc'])
         sd['weights'] = rand_weights(rng, ntot, wc)
@@ -349,6 +360,12 @@ def param_classes(rng, p, U, nrand=4, near_start=False, ulp=False):
                 next_ = min(x for x in d if x > k)
                 if nb != k and prev_ < nb < next_ and abs(nb - prev_) > 1e-9 * (b - a) and abs(next_ - nb) > 1e-9 * (b - a):
                     out.append(('knot_near', nb))
+    if ulp:
+        # a hair inside both domain ends (1e-9 .. 3e-8 of the range): ordinary parameters of the first / last span
+        for e_, sg_ in ((a, 1.0), (b, -1.0)):
+            nb = e_ + sg_ * rng.choice([1e-9, 1e-8, 3e-8]) * (b - a)
+            if a < nb < b and all(abs(nb - k2) > 1e-10 * (b - a) for k2 in d[1:-1]):
+                out.append(('end_near', nb))
     if near_start:
         for lo_, hi_ in ((0, 1e-4), (1e-4, 1e-2)):
             u = a + (b - a) * rng.uniform(lo_, hi_)
@@ -369,6 +386,12 @@ def param_tuples(rng, o, count=8, mode='mixed', ulp=False):
     for _ in range(count):
         pick = [rng.choice(pc) for pc in per]
         out.append((tuple(t for t, _ in pick), tuple(u for _, u in pick)))
+    doms = domains_of(o)
+    if len(per) > 1 and all(dm == doms[0] for dm in doms):
+        # the same parameter value in every direction (the diagonal): a parameter of ANY direction's list
+        for _ in range(3):
+            t, u = rng.choice(rng.choice(per))
+            out.append((('diag:' + t,) * len(per), (u,) * len(per)))
     return out
 
 
